@@ -7,18 +7,19 @@ use std::{
 	pin::Pin,
 	sync::{
 		atomic::{AtomicBool, Ordering::Relaxed},
-		Arc,
+		Arc, Mutex,
 	},
+	task::Waker,
 };
 
 use futures::{
 	future::Future,
-	task::{AtomicWaker, Context, Poll},
+	task::{Context, Poll},
 };
 
 #[derive(Debug)]
 struct Inner {
-	waker: AtomicWaker,
+	wakers: Mutex<Vec<Waker>>,
 	set: AtomicBool,
 }
 
@@ -34,7 +35,7 @@ impl Default for Flag {
 impl Flag {
 	pub fn new(value: bool) -> Self {
 		Self(Arc::new(Inner {
-			waker: AtomicWaker::new(),
+			wakers: Mutex::new(Vec::new()),
 			set: AtomicBool::new(value),
 		}))
 	}
@@ -45,7 +46,10 @@ impl Flag {
 
 	pub fn raise(&self) {
 		self.0.set.store(true, Relaxed);
-		self.0.waker.wake();
+		let wakers = std::mem::take(&mut *self.0.wakers.lock().unwrap_or_else(|e| e.into_inner()));
+		for waker in wakers {
+			waker.wake();
+		}
 	}
 }
 
@@ -58,9 +62,15 @@ impl Future for Flag {
 			return Poll::Ready(());
 		}
 
-		self.0.waker.register(cx.waker());
+		{
+			// every clone of the flag may be awaited by a different task: keep all their wakers
+			let mut wakers = self.0.wakers.lock().unwrap_or_else(|e| e.into_inner());
+			if !wakers.iter().any(|w| w.will_wake(cx.waker())) {
+				wakers.push(cx.waker().clone());
+			}
+		}
 
-		// Need to check condition **after** `register` to avoid a race
+		// Need to check condition **after** registering to avoid a race
 		// condition that would result in lost notifications.
 		if self.0.set.load(Relaxed) {
 			Poll::Ready(())
